@@ -79,11 +79,16 @@ RT == {"full", "half", "halfdiag"}
 Covers == \A rt \in RT : UNION {Pairs(pt[2], rt) : pt \in TaskList} = Expected(rt)
 \* ... exactly once: the tasks' pair sets are pairwise disjoint (and each task's own loop visits
 \* a pair once; for "full" squares (i,j) and (j,i) are distinct because the i and j bins differ)
-Once == \A rt \in RT : \A a, b \in TaskList : a # b => Pairs(a[2], rt) \cap Pairs(b[2], rt) = {}
+\* (each task's pair set and touch set is built once per state, not once per comparison)
+Once == \A rt \in RT : LET TL == TaskList
+                           PR == TLCEval([pt \in TL |-> Pairs(pt[2], rt)])
+                       IN \A a, b \in TL : a # b => PR[a] \cap PR[b] = {}
 SquareOffDiagonal == \A pt \in TaskList : pt[2].kind = "sq" =>
    Range(BinStart(pt[2].y + 1), BinStart(pt[2].y + 2)) \cap Range(BinStart(pt[2].x), BinStart(pt[2].x + 1)) = {}
 \* within one pass no two tasks share an index
-ConflictFree == \A ps \in 0..(NPass - 1) : \A a, b \in Tasks(ps) : a # b => Touch(a) \cap Touch(b) = {}
+ConflictFree == \A ps \in 0..(NPass - 1) : LET TS == Tasks(ps)
+                                                  TC == TLCEval([t \in TS |-> Touch(t)])
+                                              IN \A a, b \in TS : a # b => TC[a] \cap TC[b] = {}
 BinsMonotone == \A i \in 0..(Bins - 1) : BinStart(i) <= BinStart(i + 1) /\ BinStart(0) = 0
 PassCount == ~Serial => Cardinality({s[1] : s \in Squares}) <= Bins - 1 /\ \A s \in Squares : s[1] \in 1..(Bins - 1)
 
